@@ -3,11 +3,11 @@
 patch="$1"; shift
 cd /repo || exit 2
 if ! git diff --quiet; then echo "/repo is dirty, refusing"; exit 2; fi
-if ! git apply --3way "$patch" 2>/dev/null && ! git apply "$patch"; then echo "patch does not apply"; git checkout -- . ; exit 2; fi
+if ! git apply "$patch" 2>/dev/null && ! patch -p1 --fuzz=3 -s < "$patch"; then echo "patch does not apply"; git reset -q --hard HEAD; exit 2; fi
 git reset -q 2>/dev/null
 cd /verif
 for p in "$@"; do
   ./cv check "$p" --tier ${TIER:-quick} ${ONLY:+--only $ONLY} 2>&1 | grep -v "^WARNING" | cut -c1-400
   echo "rc[$p]=${PIPESTATUS[0]}"
 done
-git -C /repo checkout -- . ; git -C /repo status --short | head -3
+git -C /repo reset -q --hard HEAD; find /repo -name '*.orig' -o -name '*.rej' | xargs -r rm -f; git -C /repo status --short | head -3
